@@ -108,11 +108,13 @@ where
     let mut p = VPosition::<T, D>::zero(m, kani::any(), kani::any());
     let prices: Prices<T> = any_prices(true);
     let size_delta: T = kani::any();
-    let a = IncreasePosition::try_new(&mut p, prices, T::zero(), size_delta, None);
+    let mut pos0 = p;
+    let a = IncreasePosition::try_new(&mut pos0, prices, T::zero(), size_delta, None);
     let Ok(a) = a else {
         core::mem::forget(a);
         return;
     };
+    let a = a.verif_with_position(&mut p);
     let is_long = a.verif_position().is_long;
     let r = a.verif_get_execution_params();
     if let Ok((e, pi)) = &r {
@@ -249,7 +251,7 @@ fn c10_impact_caps_exact_u8() {
 // ------------------------------------------------------------------------------------------------
 // (4)
 
-fn open_then_value_not_positive<T, const D: u8>()
+fn open_then_value_not_positive<T, const D: u8>(is_long: bool) -> bool
 where
     T: FixedPointOps<D> + CheckedSub + Copy + kani::Arbitrary + Into<u32> + num_traits::Bounded,
     T::Signed: Num + Copy + kani::Arbitrary + Into<i32>,
@@ -259,20 +261,22 @@ where
     m.open_interest_in_tokens = Side2 { long: VPool::any(), short: VPool::any() };
     m.liquidity = VPool::any();
     m.pnl_factor.trader = Side2::any();
-    let mut p = VPosition::<T, D>::zero(m, kani::any(), kani::any());
+    let mut p = VPosition::<T, D>::zero(m, is_long, kani::any());
     let prices: Prices<T> = any_prices(true);
     let size_delta: T = kani::any();
     kani::assume(!size_delta.is_zero());
     let tokens = {
-        let a = IncreasePosition::try_new(&mut p, prices, T::zero(), size_delta, None);
+        let mut pos0 = p;
+        let a = IncreasePosition::try_new(&mut pos0, prices, T::zero(), size_delta, None);
         let Ok(a) = a else {
             core::mem::forget(a);
-            return;
+            return false;
         };
+        let a = a.verif_with_position(&mut p);
         let r = a.verif_get_execution_params();
         let Ok((e, _)) = &r else {
             core::mem::forget(r);
-            return;
+            return false;
         };
         let t = *e.size_delta_in_tokens();
         core::mem::forget(r);
@@ -287,23 +291,37 @@ where
     kani::assume(*p.market.open_interest_in_tokens.get(il).side(cl) >= tokens);
 
     let r = p.pnl_value(&prices, &size_delta);
+    let mut even = false;
     if let Ok((pnl, uncapped, sdt)) = &r {
         assert!(*sdt == tokens);
         assert!(ws(*uncapped) <= 0);
         assert!(ws(*pnl) <= 0);
         kani::cover!(ws(*pnl) < 0, "strict loss from rounding or spread");
-        kani::cover!(ws(*pnl) == 0 && il, "long breaks even");
-        kani::cover!(ws(*pnl) == 0 && !il, "short breaks even");
+        even = ws(*pnl) == 0;
     }
     core::mem::forget(r);
+    even
 }
 
 //@ prop=C10 tier=quick kind=hold
 //@ enc=IncreasePosition::get_execution_params, PositionExt::pnl_value, PositionExt::size_delta_in_tokens, BaseMarketExt::pnl, MarketUtils::cap_pnl
-//@ bound=T=u8, DECIMALS=1: every size delta, ordered index/long/short prices, side, collateral token, open-interest / liquidity pool and trader pnl factor; position-impact factors zero; the position is opened from empty and valued for a full close at the same prices
-//@ stubs=none; hook: IncreasePosition::verif_get_execution_params
+//@ bound=T=u8, DECIMALS=1: long position; every size delta, ordered index/long/short prices, collateral token, open-interest / liquidity pool and trader pnl factor; position-impact factors zero; the position is opened from empty and valued for a full close at the same prices
+//@ stubs=none; hooks: IncreasePosition::verif_get_execution_params, verif_with_position
 #[kani::proof]
 #[kani::unwind(4)]
-fn c10_open_then_value_not_positive_u8() {
-    open_then_value_not_positive::<u8, 1>();
+fn c10_open_then_value_not_positive_long_u8() {
+    let even = open_then_value_not_positive::<u8, 1>(true);
+    kani::cover!(even, "breaks even");
 }
+
+//@ prop=C10 tier=quick kind=hold
+//@ enc=IncreasePosition::get_execution_params, PositionExt::pnl_value, PositionExt::size_delta_in_tokens, BaseMarketExt::pnl, MarketUtils::cap_pnl
+//@ bound=T=u8, DECIMALS=1: short position; every size delta, ordered index/long/short prices, collateral token, open-interest / liquidity pool and trader pnl factor; position-impact factors zero; the position is opened from empty and valued for a full close at the same prices
+//@ stubs=none; hooks: IncreasePosition::verif_get_execution_params, verif_with_position
+#[kani::proof]
+#[kani::unwind(4)]
+fn c10_open_then_value_not_positive_short_u8() {
+    let even = open_then_value_not_positive::<u8, 1>(false);
+    kani::cover!(even, "breaks even");
+}
+
